@@ -489,21 +489,33 @@ def oracle_model_case(case, res):
 
 
 # ------------------------------------------------------------------------------------------ stream B: real keys
+KEYS_FIXTURE = os.path.join(os.path.dirname(os.path.abspath(__file__)), "c08.keys.json")
+
+
 def rsa_keys(tier):
-    """cached RSA keys (generated once by the code under test's generator, OS entropy): list of (bits, pem)"""
-    os.makedirs(KEYCACHE, exist_ok=True)
+    """fixed RSA test keys from the committed fixture tools/props/c08.keys.json: list of (bits, pem).
+    (Generating RSA-3072/4096 keys on every fresh checkout costs minutes; a missing entry is generated once through
+    PrivateKeyRsa.generate_key and kept under .work/C08/keycache.)"""
     want = 2 if tier == "thorough" else 1
+    try:
+        fixture = json.load(open(KEYS_FIXTURE))["keys"]
+    except (OSError, ValueError, KeyError):
+        fixture = {}
     out, missing = [], []
     for bits in (2048, 3072, 4096):
         for i in range(want):
-            p = os.path.join(KEYCACHE, f"rsa{bits}_{i}.pem")
-            if os.path.exists(p):
+            name = f"rsa{bits}_{i}"
+            p = os.path.join(KEYCACHE, name + ".pem")
+            if name in fixture:
+                out.append((bits, fixture[name].encode("ascii")))
+            elif os.path.exists(p):
                 out.append((bits, open(p, "rb").read()))
             else:
                 missing.append((bits, p))
     if missing:
-        res = vlib.run_impl("c08_impl.py", {"ops": [{"op": "gen_rsa", "bits": b, "timeout": 120} for b, _ in missing],
-                                            "workdir": SCRATCH}, timeout=900)["results"]
+        os.makedirs(KEYCACHE, exist_ok=True)
+        res = vlib.run_impl("c08_impl.py", {"ops": [{"op": "gen_rsa", "bits": b, "timeout": 300} for b, _ in missing],
+                                            "workdir": SCRATCH}, timeout=1800)["results"]
         for (bits, p), r in zip(missing, res):
             if r[0] != "ok":
                 raise RuntimeError(f"RSA key generation failed: {r}")
@@ -697,6 +709,8 @@ def keys_stream(rep, tier, rng, impl):
                     if pw:
                         dec = O.openssl_private_numbers(SCRATCH, blob, enc == "PEM", pw)
                         stats["openssl"] += 1
+                        if dec is None:         # tool unavailable: no verdict (SPSDK's own parse of the blob is still checked below)
+                            dec = nums
                     else:
                         dec = O.parse_pkcs8(O.unpem(blob)[1] if enc == "PEM" else blob)
                 except Exception as ex:  # noqa
@@ -780,7 +794,7 @@ def keys_stream(rep, tier, rng, impl):
                 s2 = sig if (kind == "rsa" or kw.get("der_format")) else O.der_sig(int.from_bytes(sig[:len(sig) // 2], "big"),
                                                                                    int.from_bytes(sig[len(sig) // 2:], "big"))
                 stats["openssl"] += 1
-                if not O.openssl_verify(SCRATCH, pubnums, data, s2, h, bool(kw.get("pss_padding")), bool(kw.get("prehashed"))):
+                if O.openssl_verify(SCRATCH, pubnums, data, s2, h, bool(kw.get("pss_padding")), bool(kw.get("prehashed"))) is False:
                     fail(f"sign:{ptag}:rejected-by-openssl", "signature does not verify under the matching public key according to openssl", replay)
             nbits_m, nbits_s = len(data) * 8, len(sig) * 8
             if thorough and len(data) <= 64:
@@ -1385,7 +1399,8 @@ def _run(rep, tier, rng):
                    stats["roundtrips"] + stats["signatures"] + stats["negatives"], len(stats["distinct"]), samples=stats["samples"],
                    exhaustive=False, extra={"keys": stats["keys"], "export_parse_roundtrips": stats["roundtrips"],
                                             "signatures_verified_independently": stats["signatures"],
-                                            "negative_verifications": stats["negatives"], "openssl_invocations": stats["openssl"]})
+                                            "negative_verifications": stats["negatives"], "openssl_invocations": stats["openssl"],
+                                            "openssl_unavailable_so_far": O.TOOL["unavailable"]})
     lap('real keys stream')
     # (T2-C) constructed valid signatures of chosen DER length
     nrec, nrk = recovered_stream(rep, tier, rng, impl, model_ok)
@@ -1418,6 +1433,12 @@ def _run(rep, tier, rng):
     rep.add_stream("self-signed certificates of every key: export PEM/DER/NXP, parse, get_public_key, extract_public_key_from_data, validate",
                    ncert, ncert, samples=[], exhaustive=False)
     lap('certificates')
+    t = O.TOOL
+    many = t["unavailable"] > max(3, t["calls"] // 4)
+    rep.obligation("oracle:tool-availability (openssl CLI gave a verdict on all but a few calls)", not many,
+                   f"{t['unavailable']} of {t['calls']} openssl calls gave no verdict: {t['errors']}" if t["unavailable"] else "")
+    if t["unavailable"]:
+        vlib.log(f"  note: openssl oracle unavailable on {t['unavailable']} of {t['calls']} calls (judged by the pure-Python verifier only)")
     if regen_c08.LAST_NOTES:
         clean = not rep.violations and not any(n.startswith("correspondence") for n in rep.broken)
         rep.obligation("translate-fallback: restructured functions behave as the model on all generated inputs", clean,
@@ -1434,6 +1455,7 @@ def _run(rep, tier, rng):
                       "validated against tools/props/c08_oracle.py and the openssl CLI)",
                       "CPython int.to_bytes/from_bytes, bytes.decode('utf-8') semantics"],
         checker_cmd="coqc -R . V Props/C08/*.v (after make Proofs/SigEncProofs.vo)",
+        extra_cov={"openssl_tool": {"calls": O.TOOL["calls"], "unavailable": O.TOOL["unavailable"]}},
         assumptions=["DER signatures shorter than 4 GiB (4-byte length limit of the asn1 decoder)",
                      "PublicKey.parse dispatch: cryptography's PEM/DER loaders and RSAPublicNumbers.public_key() are inputs of the model; "
                      "the OTPS text format is outside the model (cases where it applies are skipped)",
